@@ -693,3 +693,269 @@ def nested_suite(run, scratch, seed, n):
                     "for bit, whatever and whenever the parent allocates; all four runs also checked against the model; non-trivial = "
                     "pairs whose index actually moves",
             "samples": [{"nested": p[0], "child": p[1]} for p in pairs[:3]]}
+
+
+# ---------------------------------------------------------------- C10: completion / finiteness, ill-formed stream
+EXTRA_PREFIXES = ("REP ", "RV ", "RT ", "ERRAT ")
+
+
+def split_extra(ic):
+    """take the report / error-date lines out of an implementation dump (the model has no such keys)"""
+    extra = {}
+    for st in ic["steps"]:
+        for key in list(st["state"]):
+            if key.startswith(EXTRA_PREFIXES):
+                extra[key] = st["state"].pop(key)
+    return extra
+
+
+NONFINITE = ("nan", "inf", "-inf")
+
+
+def nonfinite_histories(state):
+    """recorded numbers that are not finite: every history row of every node (securities: values, positions,
+    notionals, outlays; strategies: prices, values, notionals, cash, fees, flows, universe columns of children)"""
+    out = []
+    for key, toks in state.items():
+        f = key.split(" ")[1]
+        if f.startswith(("h_", "hg_", "ucol.")):
+            if any(t in NONFINITE for t in toks):
+                out.append(key)
+    return out
+
+
+def wellformed_suite(run, scratch, seed, n, name="wellformed_runs"):
+    import gen_backtest
+    cases = gen_backtest.gen_wellformed_cases(seed, n)
+    for c in cases:
+        c["report_error_date"] = True
+    tally = {"equal": 0, "drift": 0, "diff": 0}
+    hist, rep_hist = {}, {}
+    first_diff = None
+    nontrivial = set()
+    bad = 0
+    for i in range(0, len(cases), 100):
+        part = cases[i:i + 100]
+        di = common.parse_dump(common.run_impl(scratch, "impl_reports.py", json.dumps(part)))
+        dm = common.parse_dump(common.run_model("\n".join(common.bt_case_to_sexp(c) for c in part)))
+        for c in part:
+            ic, mc = di.get(c["name"]), dm.get(c["name"])
+            if ic is None or mc is None:
+                tally["diff"] += 1
+                first_diff = first_diff or (c, {"what": "case missing from output"})
+                continue
+            extra = split_extra(ic)
+            v, d = common.compare_case(ic, mc)
+            tally[v] += 1
+            if v == "diff" and first_diff is None:
+                first_diff = (c, d)
+            st = ic["steps"][-1]["status"]
+            k = st[2] if len(st) > 2 and st[1] == "err" else "completed"
+            hist[k] = hist.get(k, 0) + 1
+            fails = []
+            if k != "completed":
+                nested = any(x[0] == "strat" for x in c["tree"][3])
+                at = extra.get("ERRAT now", ["?"])[0]
+                if k in ("ESizingDiverged", "ESizingStuck", "ESizingLoop"):
+                    run.known_seen.add("c10_K1_sizing")
+                    continue
+                if k == "EBadPrice" and nested and at == str(c["dates"][0] - 86400):
+                    run.known_seen.add("c10_K15_synthetic_row")
+                    continue
+                fails.append("a well-formed backtest raised %s (tree date %s)" % (k, at))
+            else:
+                state = ic["steps"][-1]["state"]
+                if any(key.endswith(" h_outlays") and any(common.tok_val(t) != 0 for t in toks) for key, toks in state.items()):
+                    nontrivial.add(json.dumps([c["tree"], c["dates"][:3]]))
+                nf = nonfinite_histories(state)
+                if nf:
+                    fails.append("non-finite numbers recorded in %s" % ", ".join(nf[:4]))
+                for key, toks in sorted(extra.items()):
+                    if key.startswith("REP "):
+                        rk = key[4:] + ":" + " ".join(toks)
+                        rep_hist[rk] = rep_hist.get(rk, 0) + 1
+                        if toks[0] != "ok":
+                            fails.append("report %s raised %s" % (key[4:], " ".join(toks[1:])))
+                    elif key.startswith(("RV ", "RT ")) and any(t in NONFINITE for t in toks):
+                        fails.append("report %s holds non-finite numbers" % key.split(" ")[1])
+            if fails:
+                bad += 1
+                if bad <= 3:
+                    run.violation({"suite": name, "case": c, "failures": fails[:6]},
+                                  "C10: %s (%s)" % (fails[0], c["name"]))
+    if first_diff is not None:
+        c, d = first_diff
+        run.violation({"suite": name, "case": c, "difference": d, "n_disagreeing_cases": tally["diff"],
+                       "broken": "correspondence %s (model Algos.v/Engine.v vs bt)" % name},
+                      "correspondence %s: implementation and model disagree on %d of %d backtests; first: %s %s"
+                      % (name, tally["diff"], len(cases), c["name"], json.dumps(d)[:300]))
+    return {"evaluations": len(cases), "distinct_nontrivial": len(nontrivial),
+            "traces_validated_against_impl": tally["equal"] + tally["drift"], "bit_drift": tally["drift"],
+            "disagreements": tally["diff"], "final_status_histogram": hist, "report_status_histogram": rep_hist,
+            "oracle_failures": bad,
+            "rule": "seeded random well-formed backtests: increasing unique dates on real calendars, 2-6 tickers with finite positive prices from "
+                    "their listing date on, flat / lazily declared / nested trees (children funded on the first date), stock-algo stacks "
+                    "(selection only of listed tickers, long/short weights of total size <= 1, no user bookings, no empty look-back "
+                    "windows), five commission families, spreads, integer / fractional; each run must complete, every history row of every "
+                    "node must be finite, and 13 report accessors (weights, security_weights, positions, outlays, herfindahl_index, "
+                    "turnover, Result, Result.prices / stats / display / get_weights / get_security_weights / get_transactions) must "
+                    "complete with finite numbers; every run is also compared with the model",
+            "samples": [{"name": c["name"], "tree": c["tree"], "dates": c["dates"][:4]} for c in cases[:2]]}
+
+
+def illformed_cases(seed, n):
+    """(case, expected error, class label); engine-format histories, one ill-formed situation each"""
+    import random
+    from gen_engine import hx, dy, NAN
+    rng = random.Random(seed * 101 + 7)
+    out = []
+
+    def col(nrows, nan_at=None, zero_at=None):
+        p = dy(rng, 5, 120, 8)
+        c = []
+        for r in range(nrows):
+            p = max(0.5, p + dy(rng, -3, 3, 8))
+            c.append(NAN if r == nan_at else hx(0.0) if r == zero_at else hx(p))
+        return c
+
+    def base(name, tree, prices, ops, **kw):
+        c = {"name": name, "nrows": len(prices[0][1]), "intpos": rng.random() < 0.5,
+             "comm": rng.choice([["none"], ["flat", hx(2.0)], ["prop", hx(0.001953125)]]),
+             "prices": prices, "bidoffer": None, "coupons": None, "cost_long": None, "cost_short": None,
+             "tree": tree, "ops": ops}
+        c.update(kw)
+        return c
+    kinds = ["trade_nan", "trade_zero", "nan_open", "nan_coupon", "zero_base", "zero_notl", "fi_child", "custom_nobo",
+             "transact_nan", "fi_grandchild"]
+    for i in range(n):
+        kind = kinds[i % len(kinds)]
+        name = "x%05d" % i
+        nrows = rng.randint(3, 6)
+        r = rng.randint(1, nrows - 1)
+        cap = float(rng.choice([1000, 10000, 100000]))
+        amt = dy(rng, cap / 16, cap / 2, 4) * rng.choice([1, 1, -1])
+        start = [["adjust", [], hx(cap), True, True, hx(0.0)], ["update", 0]]
+        if kind in ("trade_nan", "trade_zero"):
+            prices = [[1, col(nrows, nan_at=r if kind == "trade_nan" else None, zero_at=r if kind == "trade_zero" else None)],
+                      [2, col(nrows)]]
+            tree = ["strat", 3, False, [["sec", 1, "sec", False, hx(1.0), rng.random() < 0.3], ["sec", 2, "sec", False, hx(1.0), False]]]
+            ops = start + [["allocate", [], hx(amt / 2), 2, True], ["update", r], ["allocate", [], hx(amt), 1, rng.random() < 0.7]]
+            out.append((base(name, tree, prices, ops), "EBadPrice", kind))
+        elif kind == "nan_open":
+            prices = [[1, col(nrows, nan_at=r)], [2, col(nrows)]]
+            tree = ["strat", 3, False, [["sec", 1, "sec", False, hx(1.0), False], ["sec", 2, "sec", False, hx(1.0), False]]]
+            ops = start + [["update", r - 1], ["transact", [], hx(float(rng.choice([-5, 3, 10]))), 1, True, None], ["update", r]]
+            out.append((base(name, tree, prices, ops), "ENanPriceOpen", kind))
+        elif kind == "nan_coupon":
+            prices = [[1, col(nrows)], [2, col(nrows)]]
+            cps = [[1, [NAN if k == r else hx(dy(rng, 0, 1, 16)) for k in range(nrows)]], [2, [hx(0.0)] * nrows]]
+            cls = rng.choice(["coupon", "couponhedge"])
+            tree = ["strat", 3, True, [["sec", 1, cls, True, hx(1.0), False], ["sec", 2, "sec", False, hx(1.0), False]]]
+            ops = start + [["update", r - 1], ["transact", [], hx(float(rng.choice([-5, 3, 10]))), 1, True, None], ["update", r]]
+            out.append((base(name, tree, prices, ops, coupons=cps), "ENanCouponOpen", kind))
+        elif kind == "zero_base":
+            # an unfunded sub-strategy trades: a fee (or a price move) on a zero base
+            prices = [[1, col(nrows)], [2, col(nrows)]]
+            tree = ["strat", 4, False, [["strat", 3, False, [["sec", 1, "sec", False, hx(1.0), False]]], ["sec", 2, "sec", False, hx(1.0), False]]]
+            ops = start + [["transact", [3], hx(float(rng.choice([-5, 3, 10]))), 1, False, None], ["update", min(r, nrows - 1)],
+                           ["read", [3], "price"]]
+            c = base(name, tree, prices, ops)
+            c["comm"] = ["flat", hx(2.0)]
+            out.append((c, "EZeroBase", kind))
+        elif kind == "zero_notl":
+            prices = [[1, col(nrows)], [2, col(nrows)]]
+            tree = ["strat", 3, True, [["sec", 1, "hedge", False, hx(1.0), False], ["sec", 2, "fi", False, hx(1.0), False]]]
+            # a hedge position carries no notional: P&L on zero notional
+            ops = [["adjust", [], hx(cap), True, True, hx(0.0)], ["update", 0],
+                   ["transact", [], hx(float(rng.choice([-5, 3, 10]))), 1, True, None], ["update", r], ["read", [], "price"]]
+            c = base(name, tree, prices, ops)
+            c["comm"] = ["flat", hx(2.0)]
+            out.append((c, "EZeroNotl", kind))
+        elif kind == "transact_nan":
+            # a quantity trade that opens a position on a date without a price: refused at the refresh that follows
+            prices = [[1, col(nrows, nan_at=r)], [2, col(nrows)]]
+            fi = rng.random() < 0.5
+            tree = ["strat", 3, fi, [["sec", 1, "sec", False, hx(1.0), False], ["sec", 2, "sec", False, hx(1.0), False]]]
+            ops = start + [["update", r], ["transact", [], hx(float(rng.choice([-5, 3, 10]))), 1, True, None], ["read", [], "value"]]
+            out.append((base(name, tree, prices, ops), "ENanPriceOpen", kind))
+        elif kind == "fi_grandchild":
+            # the nesting rule is about the direct parent, whatever the root is
+            prices = [[1, col(nrows)], [2, col(nrows)]]
+            rootfi = rng.random() < 0.7
+            tree = ["strat", 5, rootfi, [["strat", 4, False, [["strat", 3, True, [["sec", 1, "fi", False, hx(1.0), False]]]]],
+                                         ["sec", 2, "sec", False, hx(1.0), False]]]
+            out.append((base(name, tree, prices, start), "EFiChild", kind))
+        elif kind == "fi_child":
+            prices = [[1, col(nrows)], [2, col(nrows)]]
+            tree = ["strat", 4, False, [["strat", 3, True, [["sec", 1, "fi", False, hx(1.0), False]]], ["sec", 2, "sec", False, hx(1.0), False]]]
+            out.append((base(name, tree, prices, start), "EFiChild", kind))
+        else:
+            prices = [[1, col(nrows)], [2, col(nrows)]]
+            tree = ["strat", 3, False, [["sec", 1, "sec", False, hx(1.0), False], ["sec", 2, "sec", False, hx(1.0), False]]]
+            ops = start + [["update", r], ["transact", [1], hx(float(rng.choice([-5, 3, 10]))), None, True, hx(dy(rng, 1, 100, 8))]]
+            out.append((base(name, tree, prices, ops), "ECustomNoBidoffer", kind))
+    return out
+
+
+def illformed_suite(run, scratch, seed, n, name="illformed_stream"):
+    import engine_corr
+    import backtest_corr
+    triples = illformed_cases(seed, n)
+    res = engine_corr.run_cases([t[0] for t in triples], scratch)
+    tally = {"equal": 0, "drift": 0, "diff": 0}
+    per_class, bad = {}, 0
+    first_diff = None
+    for (c, want, kind), (_, v, d, ic, mc) in zip(triples, res):
+        tally[v] += 1
+        if v == "diff" and first_diff is None:
+            first_diff = (c, d)
+        got = "missing"
+        if ic:
+            errs = [st["status"][2] for st in ic["steps"] if len(st["status"]) > 2 and st["status"][1] == "err"]
+            got = errs[0] if errs else "no-error"
+        per_class.setdefault(kind, {}).setdefault(got, 0)
+        per_class[kind][got] += 1
+        if got != want:
+            bad += 1
+            if bad <= 3:
+                run.violation({"suite": name, "case": c, "class": kind, "expected": want, "got": got},
+                              "C10: ill-formed situation '%s' did not raise %s (got %s) in %s" % (kind, want, got, c["name"]))
+    # duplicate tickers: Backtest construction
+    import gen_backtest
+    import random
+    rng = random.Random(seed + 5)
+    dups = []
+    for i in range(max(4, n // 10)):
+        c = gen_backtest.gen_wellformed_case(rng, "xd%04d" % i)
+        j = rng.randrange(len(c["prices"]))
+        c["prices"].insert(rng.randrange(len(c["prices"]) + 1), [c["prices"][j][0], list(c["prices"][j][1])])
+        dups.append(c)
+    dres = backtest_corr.run_cases(dups, scratch)
+    for c, v, d, ic, mc in dres:
+        tally[v] += 1
+        if v == "diff" and first_diff is None:
+            first_diff = (c, d)
+        st = ic["steps"][-1]["status"] if ic else ["?", "?", "missing"]
+        got = st[2] if len(st) > 2 and st[1] == "err" else "no-error"
+        per_class.setdefault("dup_tickers", {}).setdefault(got, 0)
+        per_class["dup_tickers"][got] += 1
+        if got != "EDupColumn":
+            bad += 1
+            if bad <= 3:
+                run.violation({"suite": name, "case": c, "class": "dup_tickers", "expected": "EDupColumn", "got": got},
+                              "C10: duplicate tickers did not raise (got %s) in %s" % (got, c["name"]))
+    if first_diff is not None:
+        c, d = first_diff
+        run.violation({"suite": name, "case": c, "difference": d, "n_disagreeing_cases": tally["diff"],
+                       "broken": "correspondence %s (model Engine.v/Ops.v vs bt/core.py)" % name},
+                      "correspondence %s: implementation and model disagree on %d cases; first: %s %s"
+                      % (name, tally["diff"], c["name"], json.dumps(d)[:300]))
+    return {"evaluations": len(triples) + len(dups), "distinct_nontrivial": len(triples) + len(dups),
+            "traces_validated_against_impl": tally["equal"] + tally["drift"], "bit_drift": tally["drift"],
+            "disagreements": tally["diff"], "error_class_histogram": per_class, "oracle_failures": bad,
+            "rule": "one ill-formed situation per history with random numbers around it: allocation at a missing / zero price, missing price "
+                    "or coupon on an open position, P&L on a zero base (unfunded sub-strategy paying a fee) or zero notional (hedge-only "
+                    "fixed-income book), fixed-income strategy under a market-value parent, custom-price trade without bid/offer data, "
+                    "duplicate ticker columns handed to Backtest: the implementation must raise exactly that error, and the model must agree "
+                    "state for state up to the failing operation",
+            "samples": [{"class": t[2], "expected": t[1], "ops": t[0]["ops"]} for t in triples[:2]]}
